@@ -36,3 +36,12 @@ package keystore
 //@   assert-at return#1 false-for-different-lengths: len(a) != len(b)
 //@   assert-at return#2 false-at-a-differing-byte: 0 <= #iter && #iter < len(a) && a[#iter] != b[#iter]
 //@   loop * invariant prefix-equal: 0 <= #iter && #iter <= len(a) && len(a) == len(b) && (forall j int :: 0 <= j && j < #iter ==> a[j] == b[j])
+
+// ---- C18 (mnemonics): the reverse word index is rebuilt from the list that is installed, for every word; a sentence is
+// decoded only after every word was checked against the list
+//@ func SetWordList
+//@   assert-at mapupdate reverse-index-built-from-the-installed-list: key == list[#iter] && value == #iter
+//@   assert-at return#-1 only-after-all-words-of-the-list-were-indexed: true
+//@ func MnemonicToByteArray
+//@   assert-at call IsMnemonicValid every-word-is-checked-against-the-list-before-decoding: arg0 == mnemonic
+//@   assert-at return#1 an-invalid-sentence-is-refused: !lastresult("IsMnemonicValid") && result0 == nil
